@@ -15,6 +15,7 @@ CONSTANTS Layouts,    \* set of layouts, each a sequence of [step |-> s, n |-> n
           Vals,       \* integers that may be written
           MaxBatch,   \* maximal batch length
           Ticks,      \* clock increments; the token 0 stands for MaxRet+1 (longer than any retention)
+          NaNVal,     \* TRUE: NaN is one of the values that may be written (a stored NaN differs from an empty slot)
           FutureMax,  \* batch points may be dated up to now + FutureMax (the library accepts them)
           ValUnit,    \* tagged values are multiples of this (lcm of the averaging divisors)
           ValMode,    \* "free": any value of Vals per point; "tagged": value determined by (time, supply index)
@@ -63,7 +64,7 @@ TimeDom == (now - MaxRet(cfg) - 1)..(now + FutureMax)
 \* tagged values: distinct per (interval, supply index), both signs, multiples of ValUnit
 Tag(t, i) == Num(ValUnit * ((t - T0 + 40) * 4 + i) * (IF t % 2 = 0 THEN 1 ELSE -1))
 PointDom == IF ValMode = "free"
-            THEN {[t |-> t, v |-> Num(x)] : t \in TimeDom, x \in Vals}
+            THEN {[t |-> t, v |-> x] : t \in TimeDom, x \in {Num(y) : y \in Vals} \cup (IF NaNVal THEN {NaN} ELSE {})}
             ELSE {[t |-> t, v |-> Tag(t, 0)] : t \in TimeDom}
 
 \* archive a batch point is routed to (0 = dropped as too old)
